@@ -173,7 +173,16 @@ static void run_ps(const Case& c) {
 
 // ef <id> <n> <nb> <nmax> <spacing> ; off = bucket numbers ; parts = impedance (re,im)*nmax ;
 // extra = f_rev revpart Ib E0 sigma_delta dt fcut ; data = profile sets (k-th set: nb*n floats) ;
-// ops = P<k> (load profile set k), w (wakePotential), p (padBunchProfiles), c (updateCSR(fcut)), C (updateCSR(0))
+// ops = P<k> (load profile set k), w (wakePotential), p (padBunchProfiles), c (updateCSR(fcut)), C (updateCSR(0)),
+//       k<it> (WakePotentialMap on this field with <it> interpolation points: update(), apply(); compared in-process with a
+//              plain y-KickMap whose offsets are the field's wake potentials: "ints" = number of differing offsets, table
+//              entries, output cells, then rows and interpolation points)
+struct ProbeWake : public WakePotentialMap {
+    using WakePotentialMap::WakePotentialMap;
+    const hi* table() const { return _hinfo; }
+    size_t ip() const { return _ip; }
+    size_t rows() const { return _offset.size(); }
+};
 static void run_ef(const Case& c) {
     uint32_t n = std::stoul(c.head[2]), nb = std::stoul(c.head[3]);
     size_t nmax = std::stoul(c.head[4]); uint32_t spacing = std::stoul(c.head[5]);
@@ -198,6 +207,25 @@ static void run_ef(const Case& c) {
                 for (uint32_t x = 0; x < n; x++) pr[x] = c.data[k * nb * n + b * n + x];
                 ps->setProjection(0, b, pr);
             }
+            continue;
+        }
+        if (op[0] == 'k') {
+            const auto it = static_cast<SourceMap::InterpolationType>(op[1] - '0');
+            auto out1 = mkps(n, nb, nullptr), out2 = mkps(n, nb, nullptr);
+            ProbeWake wm(ps, out1, &ef, it, false, nullptr);
+            wm.update();
+            const float* w = ef.getWakePotentials().data();
+            ProbeKick km(ps, out2, it, false, KickMap::Axis::y, nullptr);
+            std::vector<meshaxis_t> off(w, w + static_cast<size_t>(nb) * n);
+            km.swapOffset(off);
+            size_t doff = 0, dtab = 0, dout = 0;
+            for (size_t i = 0; i < static_cast<size_t>(nb) * n; i++) if (f2u(wm.getForce()[i]) != f2u(w[i])) doff++;
+            if (wm.rows() != km.rows() || wm.ip() != km.ip()) dtab = 1u << 30;
+            else for (size_t i = 0; i < km.rows() * km.ip(); i++)
+                if (wm.table()[i].index != km.table()[i].index || f2u(wm.table()[i].weight) != f2u(km.table()[i].weight)) dtab++;
+            wm.apply(); km.apply();
+            for (size_t i = 0; i < static_cast<size_t>(n) * n * nb; i++) if (f2u(out1->getData()[i]) != f2u(out2->getData()[i])) dout++;
+            std::cout << "ops " << op << '\n' << "ints " << doff << ' ' << dtab << ' ' << dout << ' ' << wm.rows() << ' ' << wm.ip() << '\n';
             continue;
         }
         if (op == "w") { ef.wakePotential(); }
